@@ -170,6 +170,15 @@ mutual
     | t :: ts => 1 + max (treeCost t) (treesCost ts)
 end
 
+mutual
+  /-- nesting below a node: 0 for a leaf -/
+  def treeHeight : Tree → Nat
+    | .mk _ _ _ cs => treesHeight cs
+  def treesHeight : List Tree → Nat
+    | [] => 0
+    | t :: ts => max (1 + treeHeight t) (treesHeight ts)
+end
+
 theorem natDecimal_no (c : UInt8) (hc : c.toNat < 48) (n : Nat) : ∀ x ∈ natDecimal n, x ≠ c := by
   intro x hx h
   have := (natDecimal_bytes n x hx).1
@@ -184,16 +193,19 @@ theorem gitEncodeTree_eq (name id : Bytes) (num : Option Nat) (cs : List Tree) :
   cases num <;> rfl
 
 mutual
-  theorem treeOne_encoded : ∀ (t : Tree), WfTree t → ∀ (fuel : Nat) (rest : Bytes), treeCost t ≤ fuel →
-      treeOne fuel (gitEncodeTree t ++ rest) = some (canonTree t, rest)
-    | .mk name id num cs, hwf, fuel, rest, hfuel => by
+  theorem treeOne_encoded : ∀ (t : Tree), WfTree t → ∀ (fuel depth : Nat) (rest : Bytes), treeCost t ≤ fuel →
+      depth + treeHeight t ≤ maxDepth →
+      treeOne fuel depth (gitEncodeTree t ++ rest) = some (canonTree t, rest)
+    | .mk name id num cs, hwf, fuel, depth, rest, hfuel, hdepth => by
+      simp only [treeHeight] at hdepth
+      have hd0 : ¬ (depth > maxDepth) := by omega
       simp only [WfTree] at hwf
       obtain ⟨hname, hnum, hlen, hnodup, hcs⟩ := hwf
       simp only [treeCost] at hfuel
       cases fuel with
       | zero => omega
       | succ f =>
-        have hmany := treeMany_encoded cs hcs f rest (by omega)
+        have hmany := treeMany_encoded cs hcs f (depth + 1) rest (by omega) hdepth
         have hdup := sorted_no_dup (canonTrees cs) (by rw [canonTrees_names]; exact hnodup)
         have hl3 : ∀ (tl : Bytes), 2 ≤ (natDecimal cs.length ++ ((10 : UInt8) :: tl)).length := by
           intro tl
@@ -203,7 +215,7 @@ mutual
           | cons _ _ => simp only [List.length_append, List.length_cons]; omega
         cases num with
         | none =>
-          rw [gitEncodeTree_eq, treeOne]
+          rw [gitEncodeTree_eq, treeOne, if_neg hd0]
           simp only [List.append_assoc, List.cons_append, List.nil_append]
           have hl1 : 2 ≤ (name ++ ((0 : UInt8) :: 45 :: 49 :: 32 :: (natDecimal cs.length ++
               ((10 : UInt8) :: (gitEncodeTrees cs ++ rest))))).length := by
@@ -226,7 +238,7 @@ mutual
           simp only [hdup, Bool.false_eq_true, if_false, canonTree]
         | some n =>
           obtain ⟨hn, hid⟩ := hnum
-          rw [gitEncodeTree_eq, treeOne]
+          rw [gitEncodeTree_eq, treeOne, if_neg hd0]
           simp only [List.append_assoc, List.cons_append, List.nil_append]
           have hne := natDecimal_ne_nil n
           have hl1 : 2 ≤ (name ++ ((0 : UInt8) :: (natDecimal n ++ ((32 : UInt8) :: (natDecimal cs.length ++
@@ -251,21 +263,23 @@ mutual
           simp only [hdup, Bool.false_eq_true, if_false, canonTree]
           have hto : (Int.ofNat n).toNat = n := rfl
           rw [hto]
-  theorem treeMany_encoded : ∀ (ts : List Tree), WfTrees ts → ∀ (fuel : Nat) (rest : Bytes), treesCost ts ≤ fuel →
-      treeMany fuel ts.length (gitEncodeTrees ts ++ rest) = some (canonTrees ts, rest)
-    | [], _, fuel, rest, hfuel => by
+  theorem treeMany_encoded : ∀ (ts : List Tree), WfTrees ts → ∀ (fuel depth : Nat) (rest : Bytes), treesCost ts ≤ fuel →
+      (depth - 1) + treesHeight ts ≤ maxDepth →
+      treeMany fuel depth ts.length (gitEncodeTrees ts ++ rest) = some (canonTrees ts, rest)
+    | [], _, fuel, depth, rest, hfuel, _ => by
       simp only [treesCost] at hfuel
       cases fuel with
       | zero => omega
       | succ f => simp [treeMany, gitEncodeTrees, canonTrees]
-    | t :: ts, hwf, fuel, rest, hfuel => by
+    | t :: ts, hwf, fuel, depth, rest, hfuel, hdepth => by
       simp only [WfTrees] at hwf
       simp only [treesCost] at hfuel
+      simp only [treesHeight] at hdepth
       cases fuel with
       | zero => omega
       | succ f =>
-        have h1 := treeOne_encoded t hwf.1 f (gitEncodeTrees ts ++ rest) (by omega)
-        have h2 := treeMany_encoded ts hwf.2 f rest (by omega)
+        have h1 := treeOne_encoded t hwf.1 f depth (gitEncodeTrees ts ++ rest) (by omega) (by omega)
+        have h2 := treeMany_encoded ts hwf.2 f depth rest (by omega) (by omega)
         simp only [gitEncodeTrees, List.length_cons, List.append_assoc]
         rw [treeMany, h1]
         simp only [h2, canonTrees]
@@ -299,10 +313,10 @@ mutual
 end
 
 /-- the TREE payload git writes decodes to the canonical form of the tree -/
-theorem treeDecodeOpt_encoded (t : Tree) (hwf : WfTree t) :
+theorem treeDecodeOpt_encoded (t : Tree) (hwf : WfTree t) (hdepth : treeHeight t ≤ maxDepth) :
     treeDecodeOpt (gitEncodeTree t) = some (canonTree t) := by
   unfold treeDecodeOpt
-  have h := treeOne_encoded t hwf ((gitEncodeTree t).length + 2) [] (by have := treeCost_le t; omega)
+  have h := treeOne_encoded t hwf ((gitEncodeTree t).length + 2) 0 [] (by have := treeCost_le t; omega) (by omega)
   rw [List.append_nil] at h
   rw [h]
   simp
